@@ -2,7 +2,7 @@ CONSTANTS
   NK = 3
   NV = 2
   MaxVer = 1
-  MaxLen = 7
+  MaxLen = 6
   NR = 1
   Impl = "bptree"
   SmallTree = TRUE
